@@ -93,3 +93,129 @@ Proof.
   cbn zeta in H. cbn [app length] in H, P. rewrite Nat.add_0_r in P.
   exists e. auto.
 Qed.
+
+(** * A closing brace inserted in a group: it closes the group early; the
+    group's own closing brace then closes the enclosing group, and so on
+    outwards through the chain of directly nested groups; the closing brace of
+    the OUTERMOST group of the chain is left over in a body that is not a
+    group's (top level or a formula), where it is rejected. *)
+
+Definition is_grp (f : frame) : bool := match f with FGrp _ _ _ _ => true | _ => false end.
+
+(** [early chain l1 l2 = (L, W, R)]: in the body that contains the outermost
+    group of [chain] (a chain of directly nested groups, outermost first, whose
+    innermost body is [l1 ++ l2] with the brace inserted in between), the
+    faulted text reads as the items [L], whitespace [W], a stray closing brace,
+    and then [R] *)
+Fixpoint early (chain : list frame) (l1 l2 : list item) : list item * str * list item :=
+  match chain with
+  | [] => (l1, [], l2)
+  | FGrp b ws tr a :: rest =>
+      let '(L', W', R') := early rest l1 l2 in (b ++ Grp ws L' W' :: R', tr, a)
+  | _ :: rest => early rest l1 l2
+  end.
+
+Lemma early_text chain : forallb is_grp chain = true -> forall l1 l2,
+  let '(L, W, R) := early chain l1 l2 in
+  lp_text (lefts chain) ++ unparse_items l1 ++ [125%N] ++ unparse_items l2 ++ rp_text chain
+  = unparse_items L ++ W ++ [125%N] ++ unparse_items R.
+Proof.
+  induction chain as [|f rest IH]; intros G l1 l2.
+  - cbn [early lefts map lp_text flat_map rp_text app]. rewrite app_nil_r. reflexivity.
+  - cbn [forallb] in G. apply andb_true_iff in G. destruct G as [GF GR].
+    destruct f as [b ws tr a| |]; try discriminate. cbn [early].
+    specialize (IH GR l1 l2). destruct (early rest l1 l2) as [[L' W'] R'].
+    cbn [lefts map left_of rp_text right_text].
+    change (lp_text (LGrp b ws :: map left_of rest)) with (lf_text (LGrp b ws) ++ lp_text (lefts rest)).
+    unfold lf_text. cbn [lf_before lf_ws lf_open].
+    rewrite unparse_items_app, unparse_items_cons. cbn [unparse_item]. fold (unparse_items L').
+    rewrite <- !app_assoc. f_equal. f_equal. cbn [app]. f_equal.
+    cbn [app] in IH.
+    transitivity ((lp_text (lefts rest) ++ unparse_items l1 ++ 125%N :: unparse_items l2 ++ rp_text rest)
+                  ++ tr ++ 125%N :: unparse_items a).
+    + rewrite <- !app_assoc. cbn [app]. rewrite <- !app_assoc. reflexivity.
+    + rewrite IH. rewrite <- !app_assoc. cbn [app]. rewrite <- ?app_assoc. reflexivity.
+Qed.
+
+Lemma early_ok cx hs chain : forallb is_grp chain = true -> forall l1 l2 fh,
+  ok_items cx hs (plug chain (l1 ++ l2)) fh = true ->
+  let '(L, W, R) := early chain l1 l2 in
+  ok_items cx hs L (hd_error (W ++ [125%N])) = true /\ ws_ok W = true /\ ok_items cx hs R fh = true.
+Proof.
+  induction chain as [|f rest IH]; intros G l1 l2 fh H.
+  - cbn [early plug app] in *. rewrite ok_items_app in H. apply andb_true_iff in H. destruct H as [H1 H2].
+    split; [|split; [reflexivity|exact H2]].
+    eapply ok_items_follow; [exact inertf_125 | exact H1].
+  - cbn [forallb] in G. apply andb_true_iff in G. destruct G as [GF GR].
+    destruct f as [b ws tr a| |]; try discriminate. cbn [early plug plug_frame] in *.
+    rewrite ok_items_app in H. apply andb_true_iff in H. destruct H as [HB HX].
+    rewrite ok_items_cons in HX. apply andb_true_iff in HX. destruct HX as [HX HA].
+    rewrite ok_item_grp in HX. apply andb_true_iff in HX. destruct HX as [HX OKB].
+    apply andb_true_iff in HX. destruct HX as [W Wt].
+    specialize (IH GR l1 l2 _ OKB). destruct (early rest l1 l2) as [[L' W'] R'].
+    destruct IH as (OKL & WW & OKR). split; [|split; [exact Wt | exact HA]].
+    rewrite ok_items_app. apply andb_true_iff. split.
+    + rewrite <- HB. f_equal. rewrite !unparse_items_cons. cbn [unparse_item].
+      destruct ws; reflexivity.
+    + rewrite ok_items_cons. apply andb_true_iff. split.
+      * rewrite ok_item_grp, W, WW, OKL. reflexivity.
+      * exact OKR.
+Qed.
+
+Lemma lefts_app a b : lefts (a ++ b) = lefts a ++ lefts b. Proof. apply map_app. Qed.
+Lemma lp_text_app a b : lp_text (a ++ b) = lp_text a ++ lp_text b. Proof. apply flat_map_app. Qed.
+Lemma rp_text_app a b : rp_text (a ++ b) = rp_text b ++ rp_text a.
+Proof. induction a as [|f r IH]; [cbn; rewrite app_nil_r; reflexivity|]. cbn [app rp_text]. rewrite IH, app_assoc. reflexivity. Qed.
+Lemma plug_app a b body : plug (a ++ b) body = plug a (plug b body).
+Proof. induction a as [|f r IH]; [reflexivity|]. cbn [app plug]. rewrite IH. reflexivity. Qed.
+
+Lemma early_hd chain l1 l2 (x : str) : chain <> [] -> forallb is_grp chain = true ->
+  hd_error (unparse_items (fst (fst (early chain l1 l2))) ++ x) = hd_error (lp_text (lefts chain)).
+Proof.
+  intros NE G. destruct chain as [|f rest]; [congruence|].
+  cbn [forallb] in G. apply andb_true_iff in G. destruct G as [GF _].
+  destruct f as [b ws tr a| |]; try discriminate. cbn [early].
+  destruct (early rest l1 l2) as [[L' W'] R']. cbn [fst lefts map left_of].
+  rewrite <- (lp_text_hd (LGrp b ws) (map left_of rest) []) at 1. rewrite app_nil_r.
+  change (lp_text (LGrp b ws :: map left_of rest)) with (lf_text (LGrp b ws) ++ lp_text (map left_of rest)).
+  unfold lf_text. cbn [lf_before lf_ws lf_open].
+  rewrite unparse_items_app, unparse_items_cons. cbn [unparse_item].
+  destruct (unparse_items b); [|reflexivity]. cbn [app]. destruct ws; reflexivity.
+Qed.
+
+(** [outer] is the path down to the body that holds the outermost group of
+    [chain]; that body is not a group's or macro argument's
+    ([closes_hole (lefts outer) SBrace = false]: top level or a formula) *)
+Theorem fault_closing_brace_chain cx outer chain l1 l2 dtr :
+  forallb is_grp chain = true -> chain <> [] -> closes_hole (lefts outer) SBrace = false ->
+  ok_doc cx (zdoc (outer ++ chain) l1 l2 dtr) = true ->
+  let '(L, W, R) := early chain l1 l2 in
+  let q := length (lp_text (lefts outer)) + length (unparse_items L) + length W in
+  exists e,
+    parse_top (zleft (outer ++ chain) l1 ++ [125%N] ++ zright (outer ++ chain) l2 dtr) false cx (walker_state cx)
+    = PErr e (q + 1)
+    /\ pe_pos e = Some q /\ pe_what e = 2.
+Proof.
+  intros G NE CH OKD. unfold ok_doc, ok_doc_in, zdoc in OKD. cbn [d_items d_trail] in OKD.
+  apply andb_true_iff in OKD. destruct OKD as [OKD _]. rewrite plug_app in OKD.
+  destruct (ok_plug cx outer _ _ _ OKD) as (OKP & DLb & fh' & OKH).
+  pose proof (early_ok cx _ chain G l1 l2 fh' OKH) as EO.
+  pose proof (early_text chain G l1 l2) as ET.
+  pose proof (early_hd chain l1 l2) as EH.
+  destruct (early chain l1 l2) as [[L W] R]. cbn [fst] in EH. destruct EO as (OKL & WW & _).
+  assert (ND : last_dollar outer = true -> not_dollar (hd_error (unparse_items L ++ W ++ stray_text SBrace))).
+  { intros LD. rewrite (EH _ NE G). specialize (DLb LD). rewrite unparse_plug in DLb.
+    destruct chain as [|f0 r0]; [congruence|]. cbn [lefts map] in *. rewrite lp_text_hd in DLb. apply DLb.
+    intros E. apply app_eq_nil in E. destruct E as [E _]. exact (lp_text_nonempty _ _ E). }
+  destruct (fault_closing cx (lefts outer) L W SBrace (unparse_items R ++ rp_text outer ++ dtr)
+              (OKP _ ND) OKL WW I CH) as (e & H & P & Wh).
+  cbn zeta in H. cbn [stray_text length] in H, P.
+  exists e. split; [|split; [exact P | exact Wh]].
+  rewrite <- H. f_equal. unfold zleft, zright.
+  rewrite lefts_app, lp_text_app, rp_text_app, <- !app_assoc.
+  f_equal. cbn [app] in ET |- *.
+  transitivity ((lp_text (lefts chain) ++ unparse_items l1 ++ 125%N :: unparse_items l2 ++ rp_text chain)
+                ++ rp_text outer ++ dtr).
+  - rewrite <- !app_assoc. cbn [app]. rewrite <- !app_assoc. reflexivity.
+  - rewrite ET. rewrite <- !app_assoc. cbn [app]. rewrite <- ?app_assoc. reflexivity.
+Qed.
